@@ -31,9 +31,12 @@ JOBS = [
       replace=EXIT, replace_calls=["malloc:verif_malloc"], cbmc=["--unwind", "12", "--unwinding-assertions"],
       fuc=["dr_free_dag", "dr_dag_node_free", "dr_dag_node_stack_push_children"], timeout=100,
       note="bounded: one concrete DAG of 10 nodes containing every node kind, summaries arbitrary"),
-  Job("c18.prune.bounded", TU, "h_prune", kind="bounded", enforce=["dr_prune_nodes_norec/prune_frame_contract"],
-      replace=EXIT + ["dr_collapse_subgraph/collapse_any_contract"], cbmc=["--unwind", "24", "--unwinding-assertions"],
-      fuc=["dr_prune_nodes_norec"], timeout=100,
-      note="bounded: one concrete DAG of 10 nodes containing every node kind; summaries, worker sets and budget (-2..12) arbitrary"),
+] + [
+  Job("c18.prune.s%d.bounded" % k, TU, "h_prune", kind="bounded", enforce=["dr_prune_nodes_norec/prune_frame_contract"],
+      replace=EXIT + ["dr_collapse_subgraph/collapse_any_contract"], replace_calls=["malloc:verif_malloc"],
+      cbmc=["--unwind", "24", "--unwinding-assertions"], defines=["-DPRUNE_SCEN=%d" % k], fuc=["dr_prune_nodes_norec"], timeout=100,
+      note="bounded: one concrete DAG of 10 nodes containing every node kind, concrete scenario %d of 6 (budget, worker sets): %s; summaries arbitrary" % (k, what))
+  for k, what in ((1, "within budget"), (2, "root collapsed"), (3, "created task and inner section collapsed"),
+                  (4, "created task collapsed"), (5, "already minimum"), (6, "inner section collapsed"))
 ]
 META = {"level": "other", "level_text": "", "level_note": "", "trusted_base": [], "explanation": "", "assumptions": []}
